@@ -1065,7 +1065,15 @@ def regression_cases(m):
         ("9f007e7 equals-constant-arrays-assignment", m.Equals(m.Array(INT, I(0), {I(1): I(2)}), m.Array(INT, I(0))), F_),
         ("392de82 equals-nested-finite-index-arrays",
          m.Equals(m.Array(INT, m.Array(BVType(1), I(0), {m.BV(0, 1): I(1), m.BV(1, 1): I(1)})), m.Array(INT, m.Array(BVType(1), I(1)))),
-         m.Equals(m.Array(INT, m.Array(BVType(1), I(0), {m.BV(0, 1): I(1), m.BV(1, 1): I(1)})), m.Array(INT, m.Array(BVType(1), I(1))))),
+         T_),        # (left unfolded by 392de82; decided - the two values are the same array - since 358bbeb)
+        ("358bbeb equals-finite-index-jointly-covering",
+         m.Equals(m.Array(BOOL, I(0), {F_: I(1)}), m.Array(BOOL, I(1), {T_: I(0)})), T_),
+        ("358bbeb equals-finite-index-covering-but-one",
+         m.Equals(m.Array(BVType(2), I(0), {m.BV(0, 2): I(1), m.BV(1, 2): I(1)}), m.Array(BVType(2), I(1), {m.BV(2, 2): I(0)})), F_),
+        ("358bbeb equals-finite-index-different-defaults", m.Equals(m.Array(BOOL, I(0)), m.Array(BOOL, I(1))), F_),
+        ("358bbeb equals-nested-arrays-different", m.Equals(m.Array(INT, m.Array(INT, I(0))), m.Array(INT, m.Array(INT, I(1)))), F_),
+        ("358bbeb equals-nested-arrays-same-value",
+         m.Equals(m.Array(INT, m.Array(BOOL, I(0)), {I(3): m.Array(BOOL, I(1), {T_: I(0), F_: I(0)})}), m.Array(INT, m.Array(BOOL, I(0)))), T_),
         ("b53ca1b div-beyond-2^53", m.Div(c(I(2 ** 70), i), I(3)), I(2 ** 70 // 3)),
         ("b53ca1b div-negative-divisor", m.Div(c(I(2 ** 70 + 1), i), I(-7)), I(-((2 ** 70 + 1) // 7))),
         ("b53ca1b div-negative-dividend", m.Div(c(I(-(2 ** 70) - 1), i), I(7)), I((-(2 ** 70) - 1) // 7)),
